@@ -16,7 +16,7 @@ META = {
     "rule": (
         "seeded random histories of 2-5 runner generations (a new ServiceRunner each, or - 30 % - the same instance accepting again); each generation: a payload population (none / "
         "sleeping and spinning coroutines / blocked threads / 1-3 submitter threads adopting payloads "
-        "concurrently), 0-3 concurrent accept() attempts by other runners while it runs, accept_delay "
+        "concurrently; before a third of the shutdowns 1-2 coroutine payloads that answer their cancellation by raising or by returning a value), 0-3 concurrent accept() attempts by other runners while it runs, accept_delay "
         "0.01-0.3 s, and an ending in {shutdown from an outside thread, from a thread payload, two or three "
         "concurrent shutdowns, SIGINT to the main thread, KeyboardInterrupt raised in an asyncio / thread / "
         "trio payload, Exception failure, orphaned return, BaseException failure, shutdown racing a failing "
@@ -79,6 +79,17 @@ def gen_generation(rnd, index, ending):
         script.append(["wait_event", "beat", "heart", 1.0])
     script.append(["sleep", rnd.choice([0.0, 0.02, 0.1, 0.2])])
     meta = {"ending": ending, "population": population, "second_accepts": n_second}
+    if ending in ("shutdown_outside", "shutdown_thread", "shutdown_double") and rnd.random() < 0.35:
+        # payloads that answer the cancellation at shutdown with a failure of their own
+        for i in range(rnd.randint(1, 2)):
+            how = rnd.choice(["raise", "return"])
+            gen["payloads"].append({"id": "grumpy%d" % i, "flavour": rnd.choice(common.COROUTINE), "when": rnd.choice(["queued", "running"]),
+                                    "program": rnd.choice([[["beat", 0.01, None]], [["block"]]]),
+                                    "cleanup": {"kind": "fail_on_cancel", "how": how,
+                                                "what": rnd.choice(["OSError", "LookupError", "CustomWithArgs"]) if how == "raise" else rnd.choice(["str", "list", "dict"])}})
+            if gen["payloads"][-1]["when"] == "running":
+                script.insert(1, ["adopt", "grumpy%d" % i])
+        meta["grumpy"] = sorted({p["flavour"] for p in gen["payloads"] if p["id"].startswith("grumpy")})
     if ending == "shutdown_outside":
         script.append(["shutdown"])
     elif ending == "shutdown_thread":
@@ -244,8 +255,16 @@ def judge(case, run, result):
         result.count("ending_" + ending)
         fails = [e for e in run.of("fail", gen=g) if e["seq"] < ended["seq"]]
         if ending in ("shutdown_outside", "shutdown_thread", "shutdown_double", "sigint", "kbint_asyncio", "kbint_thread", "kbint_trio"):
+            if meta.get("grumpy") and run.of("fail-on-cancel", gen=g):
+                for fl in {p["flavour"] for p in gen["payloads"] if p["id"] in {e["pid"] for e in run.of("fail-on-cancel", gen=g)}}:
+                    result.count("shutdowns_with_%s_payload_failing_on_cancellation" % fl)
             if ended["outcome"] != "returned":
                 mech = "C12/keyboardinterrupt-in-trio-payload" if ending == "kbint_trio" and ended.get("exc") in ("BaseExceptionGroup", "ExceptionGroup", "KeyboardInterrupt") else None
+                flavours = {p["id"]: p["flavour"] for p in gen["payloads"]}
+                blamed = ended.get("matched") or []
+                if blamed and all(pid.startswith("grumpy") and flavours.get(pid) == "trio" for pid in blamed):
+                    # what accept raised is exactly what trio payload(s) raised / returned in answer to their cancellation
+                    mech = "C12/trio-payload-failing-on-cancel-fails-shutdown"
                 problems.append(("generation %d: ending %s: accept raised %s(%s) instead of returning normally"
                                  % (g, ending, ended.get("exc"), ended.get("msg")), mech))
         elif ending in ("fail_exception", "fail_return", "fail_base"):
@@ -290,7 +309,8 @@ def run_shard(spec):
 
 
 def finish(total, tier):
-    need = ["histories_completed", "polling_loops_checked", "restarts_of_the_same_runner_instance", "concurrent_accepts_rejected", "shutdown_calls_returned", "race_outcome_returned"]
+    need = ["histories_completed", "polling_loops_checked", "restarts_of_the_same_runner_instance", "concurrent_accepts_rejected", "shutdown_calls_returned", "race_outcome_returned",
+            "shutdowns_with_asyncio_payload_failing_on_cancellation", "shutdowns_with_trio_payload_failing_on_cancellation"]
     need += ["ending_" + e for e in ENDINGS] + ["restarts_after_" + e for e in ENDINGS]
     for name in need:
         if not total.counters.get(name) and not total.violations:
